@@ -313,4 +313,4 @@ def cases(tier, seed):
 BOUNDS = dict(shapes="2x2, 3x2, 2x3, 3x3, 1x2, 2x1 real; 2x2, 3x2, 2x3 complex; real A with complex right-hand sides", algorithms="svd: Auto(), DenseSVD(); "
               "pinv: default, Auto(), LSTSQ(), CG(), Identity / ScalarMul / Diagonal / Permutation rules", values="singular values, rotation parameters, right-hand "
               "sides symbolic")
-BOUNDS["added"] = 'pinv of lazy products with square outer and non-square interior factors'
+BOUNDS["added"] = 'pinv of lazy products with square outer and non-square interior factors Thorough tier: shapes up to 4 x 4 (4x3, 3x4, 4x4, 4x2, 2x4, 1x3, 3x1), complex 3x3 / 1x2 / 2x1.'
